@@ -9,6 +9,7 @@ import (
 	"fmt"
 	"io"
 	"reflect"
+	"sync"
 	"testing"
 	"time"
 
@@ -29,6 +30,69 @@ func TestMain(m *testing.M) {
 
 type Case struct {
 	Header string `json:"header_hex"` // 128 bytes
+	// Batch: a history instead of one header - every header is parsed once in order (rejected ones included), then
+	// the accepted ones are parsed again on Workers goroutines at the same time, each on its own reader
+	Batch   []string `json:"batch_hex,omitempty"`
+	Workers int      `json:"workers,omitempty"`
+}
+
+// checkBatch: the decoded header of a profile does not depend on what was parsed before it or beside it.
+func checkBatch(c Case) (kind, what string) {
+	type item struct {
+		data []byte
+		want icc.Header
+		hex  string
+	}
+	var items []item
+	for _, hx := range c.Batch {
+		if k, w, _ := check(Case{Header: hx}); k != "" {
+			return k, w
+		}
+		raw, _ := hex.DecodeString(hx)
+		var h [128]byte
+		copy(h[:], raw)
+		data := profileWith(h)
+		p, err := icc.NewProfileReader(bytes.NewReader(data)).ReadProfile()
+		if err == nil {
+			items = append(items, item{data, p.Header, hx})
+		}
+	}
+	if len(items) == 0 {
+		return "", ""
+	}
+	var mu sync.Mutex
+	var wg sync.WaitGroup
+	start := make(chan struct{})
+	for g := 0; g < c.Workers; g++ {
+		wg.Add(1)
+		go func(g int) {
+			defer wg.Done()
+			<-start
+			for rep := 0; rep < 40; rep++ {
+				it := items[(g+rep)%len(items)]
+				var p *icc.Profile
+				var err error
+				if pn, msg := ev.Guard(func() { p, err = icc.NewProfileReader(bytes.NewReader(it.data)).ReadProfile() }); pn {
+					mu.Lock()
+					kind, what = "panic", msg
+					mu.Unlock()
+					return
+				}
+				if err != nil || !reflect.DeepEqual(p.Header, it.want) {
+					mu.Lock()
+					if kind == "" {
+						kind = "history-dependent"
+						what = fmt.Sprintf("header %s parsed beside %d other parses (after %d earlier parses, some rejected) gave %+v / %v, alone it gives %+v", it.hex, c.Workers-1, len(c.Batch), p, err, it.want)
+					}
+					mu.Unlock()
+					return
+				}
+			}
+		}(g)
+	}
+	close(start)
+	wg.Wait()
+	return kind, what
 }
 
 func profileWith(h [128]byte) []byte {
@@ -157,6 +221,13 @@ func TestC16(t *testing.T) {
 		if err := ev.ReplayCase(&c); err != nil {
 			t.Fatal(err)
 		}
+		if len(c.Batch) > 0 {
+			if k, w := checkBatch(c); k != "" {
+				ev.Fail(t, "header", k, w, c)
+			}
+			fmt.Println("REPLAY case passed")
+			return
+		}
 		if k, w, _ := check(c); k != "" {
 			ev.Fail(t, "header", k, w, c)
 		}
@@ -167,7 +238,7 @@ func TestC16(t *testing.T) {
 	ev.Assume("ICC.1:2010 table 17 offsets as transcribed in the check; creation time compared only when its components form a valid calendar date")
 	bad := map[string]bool{}
 	run := func(h [128]byte, tag string) {
-		c := Case{hex.EncodeToString(h[:])}
+		c := Case{Header: hex.EncodeToString(h[:])}
 		ev.Eval(1)
 		k, w, nt := check(c)
 		if nt {
@@ -253,6 +324,43 @@ func TestC16(t *testing.T) {
 	hb[47] = 1
 	ev.Sample(map[string]any{"header_hex": hex.EncodeToString(hb[:]), "kind": "walking one: flags bit 0 (embedded)"})
 
+	// histories: rejected and accepted headers in sequence, then the accepted ones side by side
+	{
+		x := ev.Seed()*0x9E3779B97F4A7C15 + 16
+		next := func() uint64 { x ^= x << 13; x ^= x >> 7; x ^= x << 17; return x }
+		nh := ev.Pick(40, 2000)
+		for i := 0; i < nh; i++ {
+			var c Case
+			c.Workers = []int{2, 4, 8, 16}[next()%4]
+			for j := 0; j < 3+int(next()%10); j++ {
+				var h [128]byte
+				for k := range h {
+					h[k] = byte(next() >> 24)
+				}
+				if next()%4 != 0 {
+					copy(h[36:], "acsp")
+				}
+				binary.BigEndian.PutUint16(h[24:], 1999)
+				binary.BigEndian.PutUint16(h[26:], uint16(1+next()%12))
+				binary.BigEndian.PutUint16(h[28:], uint16(1+next()%28))
+				binary.BigEndian.PutUint16(h[30:], uint16(next()%24))
+				binary.BigEndian.PutUint16(h[32:], uint16(next()%60))
+				binary.BigEndian.PutUint16(h[34:], uint16(next()%60))
+				c.Batch = append(c.Batch, hex.EncodeToString(h[:]))
+			}
+			ev.Eval(1)
+			ev.NT(ev.Hash(c.Batch, c.Workers))
+			if k, w := checkBatch(c); k != "" {
+				ev.Violation("header", k, w, c)
+				break
+			}
+		}
+		ev.Class("histories", int64(nh))
+	}
+	if ev.Violations() > 0 {
+		t.Fail()
+		return
+	}
 	ev.RapidChecks(ev.Pick(10000, 1000000))
 	ev.RapidSeed(16)
 	rapid.Check(t, func(rt *rapid.T) {
@@ -276,7 +384,7 @@ func TestC16(t *testing.T) {
 			binary.BigEndian.PutUint16(h[32:], uint16(rapid.IntRange(0, 59).Draw(rt, "mi")))
 			binary.BigEndian.PutUint16(h[34:], uint16(rapid.IntRange(0, 59).Draw(rt, "s")))
 		}
-		c := Case{hex.EncodeToString(h[:])}
+		c := Case{Header: hex.EncodeToString(h[:])}
 		ev.Eval(1)
 		k, w, nt := check(c)
 		if nt {
